@@ -518,7 +518,12 @@ class NodeDef:
             value.info = self.info
         environment.put(self.identifier, value)
         import ckl.functions
-        if isinstance(value, ckl.functions.FuncLambda):
+        if (
+            isinstance(value, ckl.functions.FuncLambda)
+            and value.name == "lambda"
+        ):
+            # a function is named by its first definition; binding it to
+            # another name later does not rename the function value
             value.name = self.identifier
         return value
 
@@ -562,7 +567,10 @@ class NodeDefDestructuring:
             if i < len(values):
                 environment.put(self.identifiers[i], values[i])
                 import ckl.functions
-                if isinstance(values[i], ckl.functions.FuncLambda):
+                if (
+                    isinstance(values[i], ckl.functions.FuncLambda)
+                    and values[i].name == "lambda"
+                ):
                     values[i].name = self.identifiers[i]
                 result = values[i]
             else:
